@@ -385,4 +385,35 @@ def castSpec (a : SAtom) (t : SType) : Option SVal :=
     | .dbl x _ _ => some (.dbl (match x with | .nan => .nan | .pinf => .pinf | .ninf => .ninf | .fin _ _ _ => .num))
     | _ => some (.dbl .num)
 
+/-! ## timezones: XSD 1.1 Part 2, 3.3.7.2 (dateTime lexical mapping), productions [63] timezoneFrag
+
+timezoneFrag ::= 'Z' | ('+' | '-') (('0' digit | '1' [0-3]) ':' minuteFrag | '14:00'),
+minuteFrag ::= [0-5] digit.  timezoneFragValue: 0 for 'Z'; otherwise hh × 60 + mm, *negated as a whole*
+when the sign is '-' (so '-00:30' denotes −30 minutes). -/
+
+/-- the literal read by its parts: sign, two digits of hours, colon, two digits of minutes, with the
+range conditions of the production stated on the *numbers* -/
+def timezoneVal? (s : Str) : Option Int :=
+  if s == ['Z'] then some 0 else
+  match s with
+  | sg :: rest =>
+    if !(sg == '+' || sg == '-') then none else
+    match splitAt (· == ':') rest with
+    | (hh, some mm) =>
+      if hh.length == 2 && mm.length == 2 && hh.all isDigit && mm.all isDigit then
+        let h := digitSeqVal hh 0
+        let m := digitSeqVal mm 0
+        if (h ≤ 13 && m ≤ 59) || (h == 14 && m == 0) then
+          some (if sg == '-' then -((h * 60 + m : Nat) : Int) else ((h * 60 + m : Nat) : Int))
+        else none
+      else none
+    | (_, none) => none
+  | [] => none
+
+/-- canonical timezone: 'Z' for UTC (so '+00:00' and '-00:00' print as 'Z'), else ±hh:mm -/
+def timezoneCanon (m : Int) : Str :=
+  let two (n : Nat) : Str := [Char.ofNat (48 + n / 10), Char.ofNat (48 + n % 10)]
+  if m == 0 then ['Z']
+  else (if m < 0 then '-' else '+') :: (two (m.natAbs / 60) ++ ':' :: two (m.natAbs % 60))
+
 end EPV.XSD
